@@ -216,6 +216,29 @@ fn modify(t: &[&str]) -> String {
 fn main() {
     serve(|t| match t[0] {
         "modify" => modify(&t[1..]),
+        // compactat <archive> <ops ,|->: applies the operations, saves a copy of the file as <archive>.pre, issues the marker
+        // call access("/verif-marker-compact"), then runs compact()
+        "compactat" => {
+            use wow_mpq::compression::CompressionMethod;
+            use wow_mpq::{AddFileOptions, MutableArchive};
+            let mut m = match MutableArchive::open(t[1]) { Ok(m) => m, Err(e) => return format!("MOPEN-{}", errclass(&e)) };
+            if t[2] != "-" {
+                for op in t[2].split(',') {
+                    let p: Vec<&str> = op.split('.').collect();
+                    let name = |h: &str| String::from_utf8(unhex(h)).unwrap();
+                    let r = match p[0] {
+                        "a" => m.add_file_data(&unhex(p[2]), &name(p[1]), AddFileOptions::new().compression(if num(p[3]) == 2 { CompressionMethod::Zlib } else { CompressionMethod::None }).replace_existing(true)),
+                        "r" => m.remove_file(&name(p[1])),
+                        "m" => m.rename_file(&name(p[1]), &name(p[2])),
+                        _ => m.flush(),
+                    };
+                    if let Err(e) = r { return format!("OP-{}", errclass(&e)); }
+                }
+            }
+            let _ = std::fs::copy(t[1], format!("{}.pre", t[1]));
+            let _ = std::fs::metadata("/verif-marker-compact");
+            match m.compact() { Ok(()) => "OK".to_string(), Err(e) => errclass(&e) }
+        }
         // readall <archive> <names hex ,> -> name>OK:hex|NOTFOUND|ERR,... | sorted list name:size
         "readall" => {
             let mut a = match Archive::open(t[1]) { Ok(a) => a, Err(_) => return "OPEN-ERR".to_string() };
